@@ -44,6 +44,9 @@ var boundary = []string{"0", "1", "2", "1f", "20", "21", "ff", "100", "7fffffff"
 
 type G struct {
 	R *rand.Rand
+	// Artela: also generate the journal opcodes 0xe0-0xe7, TLOAD/TSTORE/MCOPY and calls to the Artela precompiles
+	// 0x64-0x66 with arbitrary operands and payloads, and do not sanitise the code (crash / work fuzzing, C03 C20)
+	Artela bool
 }
 
 func New(seed int64) *G { return &G{R: rand.New(rand.NewSource(seed))} }
@@ -140,7 +143,54 @@ var binOps = []byte{0x01, 0x02, 0x03, 0x04, 0x05, 0x06, 0x07, 0x0a, 0x0b, 0x10, 
 var envOps = []byte{0x30, 0x32, 0x33, 0x34, 0x36, 0x38, 0x3a, 0x3d, 0x41, 0x42, 0x43, 0x44, 0x45, 0x46, 0x47, 0x48, 0x58, 0x59, 0x5a, 0x5f}
 
 // snippet appends one stack-neutral piece of code.
+// artelaSnippet: one Artela-specific instruction with arbitrary operands (stack-neutral when it succeeds)
+func (g *G) artelaSnippet(c *code) {
+	pops := []int{3, 4, 6, 5, 6, 5, 4, 2}
+	switch g.R.Intn(6) {
+	case 0, 1, 2:
+		op := g.R.Intn(8)
+		if g.R.Intn(3) == 0 {
+			// a plausible name in memory first
+			c.push([]byte{byte(g.R.Intn(40))}).pushN(0xC0).op(0x52)
+			c.push(g.word()).pushN(0xE0).op(0x52)
+		}
+		for i := 0; i < pops[op]; i++ {
+			switch g.R.Intn(4) {
+			case 0:
+				c.pushN(0xC0)
+			case 1:
+				c.pushN(uint64(g.R.Intn(40)))
+			default:
+				c.push(g.word())
+			}
+		}
+		c.op(byte(0xe0 + op))
+	case 3:
+		// call of any kind to 0x64 / 0x65 / 0x66 with an arbitrary payload region
+		kind := []byte{0xf1, 0xf2, 0xf4, 0xfa}[g.R.Intn(4)]
+		for i := 0; i < 1+g.R.Intn(6); i++ {
+			c.push(g.word()).pushN(uint64(32 * g.R.Intn(8))).op(0x52)
+		}
+		c.pushN(uint64(g.R.Intn(64))).pushN(g.smallOff()).pushN(uint64(g.R.Intn(300))).pushN(uint64(g.R.Intn(64)))
+		if kind == 0xf1 || kind == 0xf2 {
+			c.pushN(uint64(g.R.Intn(2)))
+		}
+		c.pushAddr(common.BytesToAddress([]byte{byte(0x64 + g.R.Intn(3))})).op(0x5a, kind)
+		g.fin(c)
+	case 4:
+		c.push(g.word()).push(g.word()).op(0x5d) // TSTORE
+		c.push(g.word()).op(0x5c)                // TLOAD
+		g.fin(c)
+	default:
+		c.push(g.word()).push(g.word()).push(g.word()).op(0x5e) // MCOPY
+	}
+}
+
 func (g *G) snippet(c *code, depth int) {
+	if g.Artela && g.R.Intn(3) == 0 {
+		g.artelaSnippet(c)
+		return
+	}
 	switch g.R.Intn(30) {
 	case 0, 1, 2, 3:
 		c.push(g.word()).push(g.word()).op(binOps[g.R.Intn(len(binOps))])
@@ -407,10 +457,19 @@ func (g *G) Next(i int) *Program {
 			return b
 		}
 	}
+	if g.Artela {
+		defer func() {
+			// raw (unsanitised) code: regenerate the three contracts without the standard-only filter
+		}()
+	}
 	p.Name = []string{"structured", "structured", "structured", "structured", "structured", "structured", "mutated", "mutated", "mutated", "raw"}[kind]
-	p.Contracts[CA] = Sanitize(mk(4+g.R.Intn(10), 2))
-	p.Contracts[CB] = Sanitize(mk(3+g.R.Intn(8), 1))
-	p.Contracts[CC] = Sanitize(mk(2+g.R.Intn(6), 1))
+	san := Sanitize
+	if g.Artela {
+		san = func(b []byte) []byte { return b }
+	}
+	p.Contracts[CA] = san(mk(4+g.R.Intn(10), 2))
+	p.Contracts[CB] = san(mk(3+g.R.Intn(8), 1))
+	p.Contracts[CC] = san(mk(2+g.R.Intn(6), 1))
 	p.Balances[EO] = big.NewInt(1 << 50)
 	p.Balances[CA] = big.NewInt(int64(g.R.Intn(3)))
 	p.Balances[CB] = big.NewInt(int64(g.R.Intn(2)))
@@ -429,7 +488,7 @@ func (g *G) Next(i int) *Program {
 	p.Input = make([]byte, g.R.Intn(70))
 	g.R.Read(p.Input)
 	if p.Entry == "create" || p.Entry == "create2" {
-		p.Input = Sanitize(g.initCode())
+		p.Input = san(g.initCode())
 	}
 	if g.R.Intn(5) == 0 && (p.Entry == "call" || p.Entry == "callcode" || p.Entry == "create" || p.Entry == "create2") {
 		p.Value = big.NewInt(int64(1 + g.R.Intn(3)))
